@@ -47,6 +47,8 @@ def _blocks(stmts, out):
             subs = [st[2]]
         elif k == "with2":
             subs = [st[3]]
+        elif k == "withn":
+            subs = [st[2]]
         elif k == "pick":
             subs = st[1]
         elif k == "try":
@@ -88,7 +90,49 @@ def gen_declared(rng):
     return program, decl, others
 
 
+def gen_through_generator(rng, quarantine=()):
+    """The declaration is supplied along a call path that runs through a generator
+    (dstream > d1 > x); other probes come and go while the generator is suspended, and the
+    supplier may leave: each later call of d1 is supplied, or fails with the name error,
+    according to who is active when it is made."""
+    sel = {"levels": [{"fn": "dstream", "caps": [], "sibs": []}, {"fn": "d1", "caps": [], "sibs": []}],
+           "focus": {"var": "x", "as": "x"}}
+    kind = rng.choice(["tweak", "overridable"])
+    ops = [{"op": "tool", "fn": "dstream", "how": "inplace"}, {"op": "tool", "fn": "d1", "how": "inplace"},
+           {"op": "mk", "id": "o0", "kind": kind, "sels": [sel], "how": ["const", rng.choice([0, 5, 77])], "nojudge": True},
+           {"op": "enter", "id": "o0"}]
+    if kind == "overridable" and "no-absent-scan-of-own-declaration-events" in quarantine:
+        ops[2]["absent_ok"] = ["x"]  # KF-C16-2
+    supplier_live = True
+    gens = []
+    for c in range(rng.randint(1, 2)):
+        gens.append(f"g{c}")
+        ops.append({"op": "gen_new", "gen": f"g{c}", "fn": "dstream", "nargs": 1})
+    by_id, n_by = None, 0
+    for _ in range(rng.randint(3, 9)):
+        r = rng.random()
+        if r < 0.3:
+            if by_id is None:
+                by_id, n_by = f"by{n_by}", n_by + 1
+                ops.append({"op": "mk", "id": by_id, "kind": "probe", "nojudge": True,
+                            "sels": [one_sel(rng.choice(["d1", "dstream", "d2"]), "#enter")]})
+                ops.append({"op": "enter", "id": by_id})
+            else:
+                ops.append({"op": "exit", "id": by_id})
+                by_id = None
+        elif r < 0.38 and supplier_live:
+            ops.append({"op": "exit", "id": "o0"})
+            supplier_live = False
+        else:
+            ops.append({"op": "gen_next", "gen": rng.choice(gens), "tape": gen_tape(rng, 6), "faults": {}})
+    for g in gens:
+        ops.append({"op": "gen_close", "gen": g, "tape": [], "faults": {}})
+    return {"prog": "decl", "ops": ops, "c16": True, "no_ref": True}
+
+
 def gen(rng, tier, quarantine=()):
+    if "no-generator-path" not in quarantine and rng.random() < 0.06:
+        return gen_through_generator(rng, quarantine)
     fns = [f for f in FN if f"no:{f}" not in quarantine]
     fn = rng.choice(fns)
     decl, others = FN[fn]
